@@ -18,7 +18,9 @@ Reads (python `ast`, closed list of shapes; anything else raises Untranslatable 
   through `from .m import *` in their __init__) to the functions of the API table (apitable.py).
 * web/base.py: NoSuchFunction is HTTPError 404; BaseHandler defines get = raise NoSuchFunction() and aliases the other six
   methods to it; APIHandler.AUTH_ENABLED defaults to True, access_level starts at core_api.ACCESS_LEVEL_NONE, prepare()
-  returns before authenticating when `not self.AUTH_ENABLED` and only ever assigns ACCESS_LEVEL_MAPPING[usr];
+  returns before authenticating when `not self.AUTH_ENABLED` and only ever assigns ACCESS_LEVEL_MAPPING[usr]; the
+  statements after that gate are translated, in their order, into the decision `grant present valid admin_empty
+  token_level` (see _grant_tree);
   call_api_func calls `func(self, **kwargs)` exactly once, after the JSON content-type test for a literal method tuple.
 """
 import ast
@@ -317,14 +319,14 @@ def parse_base():
             if s.name == '__init__':
                 _check_init(s)
             elif s.name == 'prepare':
-                _check_prepare(s)
+                grant = _check_prepare(s)
             elif s.name == 'call_api_func':
                 json_methods = _check_call_api_func(s)
             else:
                 _check_no_level_assignment(s)
     if auth_default is not True or not {'__init__', 'prepare', 'call_api_func'} <= seen:
         raise Untranslatable('base.py: APIHandler members')
-    return {'json_methods': json_methods}
+    return {'json_methods': json_methods, 'grant': grant}
 
 
 def _level_assignments(fn):
@@ -378,6 +380,86 @@ def _check_prepare(fn):
               and dotted(n.value.slice) == 'usr')
         if not ok:
             raise Untranslatable('base.py: prepare: ' + ast.unparse(n)[:70])
+    return _grant_tree(list(fn.body[gate + 1:]), None)
+
+
+def _is_logger(s):
+    return isinstance(s, ast.Expr) and isinstance(s.value, ast.Call) and (dotted(s.value.func) or '').startswith('logger.')
+
+
+def _grant_tree(stmts, usr):
+    """the statements of prepare() after the AUTH_ENABLED gate -> (coq, description) of the level granted, over the facts
+    present (an Authorization header is there), valid (it verifies as a consumer token; implies present), admin_empty
+    (admin password hash == EMPTY_PASSWORD_HASH), token_level (level of the token's usr).  Closed list of shapes:
+        auth = self.request.headers.get('Authorization')           if auth: / if not auth:
+        if core_device_attrs.admin_password_hash == core_device_attrs.EMPTY_PASSWORD_HASH:
+        try: usr = core_api_auth.parse_auth_header(auth, core_api_auth.ORIGIN_CONSUMER,
+                                                   core_api_auth.consumer_password_hash_func)
+        except core_api_auth.AuthError ...: <logger>; return
+        usr = '<user>'        return        logger.<x>(...)
+        self.access_level = core_api.ACCESS_LEVEL_MAPPING[usr]    (end: the level of usr)
+    The ORDER of the tests is what is translated; the theorem grant_ok decides whether it is the specified one."""
+    api = apitable.LAST
+    if not stmts:
+        raise Untranslatable('base.py: prepare can end without assigning access_level or returning')
+    s, rest = stmts[0], list(stmts[1:])
+    if apitable._is_docstring(s) or _is_logger(s):
+        return _grant_tree(rest, usr)
+    if (isinstance(s, ast.Assign) and len(s.targets) == 1 and dotted(s.targets[0]) == 'auth'
+            and isinstance(s.value, ast.Call) and dotted(s.value.func) == 'self.request.headers.get'
+            and len(s.value.args) == 1 and isinstance(s.value.args[0], ast.Constant)
+            and s.value.args[0].value == 'Authorization' and not s.value.keywords):
+        return _grant_tree(rest, usr)
+    if isinstance(s, ast.Return) and s.value is None:
+        return 'NONE', 'none'
+    if (isinstance(s, ast.Assign) and len(s.targets) == 1 and dotted(s.targets[0]) == 'usr'
+            and isinstance(s.value, ast.Constant) and isinstance(s.value.value, str)):
+        if s.value.value not in api['users']:
+            raise Untranslatable('base.py: prepare: usr = %r is not a known user' % s.value.value)
+        return _grant_tree(rest, ('const', s.value.value))
+    if (isinstance(s, ast.Assign) and len(s.targets) == 1 and dotted(s.targets[0]) == 'self.access_level'):
+        if usr is None:
+            raise Untranslatable('base.py: prepare assigns access_level before usr is known')
+        for r in rest:
+            if _level_assignments(r):
+                raise Untranslatable('base.py: prepare assigns access_level twice on one path')
+        if usr[0] == 'token':
+            return 'token_level', 'level of the token user'
+        return coq.z(api['users'][usr[1]]), usr[1]
+    if isinstance(s, ast.If):
+        t, neg = s.test, False
+        if isinstance(t, ast.UnaryOp) and isinstance(t.op, ast.Not):
+            t, neg = t.operand, True
+        if dotted(t) == 'auth':
+            c, d = 'present', 'header present'
+        elif (isinstance(t, ast.Compare) and len(t.ops) == 1 and isinstance(t.ops[0], ast.Eq)
+              and {dotted(t.left), dotted(t.comparators[0])} == {'core_device_attrs.admin_password_hash',
+                                                                 'core_device_attrs.EMPTY_PASSWORD_HASH'}):
+            c, d = 'admin_empty', 'admin password empty'
+        else:
+            raise Untranslatable('base.py: prepare: test ' + ast.unparse(s.test)[:70])
+        a, da = _grant_tree(list(s.body) + rest, usr)
+        b, db = _grant_tree(list(s.orelse) + rest, usr)
+        if neg:
+            a, da, b, db = b, db, a, da
+        return '(if %s then %s else %s)' % (c, a, b), '(%s ? %s : %s)' % (d, da, db)
+    if isinstance(s, ast.Try):
+        ok = (len(s.body) == 1 and isinstance(s.body[0], ast.Assign) and len(s.body[0].targets) == 1
+              and dotted(s.body[0].targets[0]) == 'usr' and isinstance(s.body[0].value, ast.Call)
+              and dotted(s.body[0].value.func) == 'core_api_auth.parse_auth_header'
+              and [dotted(a) for a in s.body[0].value.args] == ['auth', 'core_api_auth.ORIGIN_CONSUMER',
+                                                                'core_api_auth.consumer_password_hash_func']
+              and not s.body[0].value.keywords and len(s.handlers) == 1
+              and dotted(s.handlers[0].type) == 'core_api_auth.AuthError' and not s.orelse and not s.finalbody)
+        if ok:
+            hb = [x for x in s.handlers[0].body if not _is_logger(x)]
+            ok = len(hb) == 1 and isinstance(hb[0], ast.Return) and hb[0].value is None
+        if not ok:
+            raise Untranslatable('base.py: prepare: try block is not "usr = parse_auth_header(auth, ORIGIN_CONSUMER, '
+                                 'consumer_password_hash_func) except AuthError: return"')
+        a, da = _grant_tree(rest, ('token',))
+        return '(if valid then %s else NONE)' % a, '(token verifies ? %s : none)' % da
+    raise Untranslatable('base.py: prepare: statement ' + ast.unparse(s)[:70])
 
 
 def _check_call_api_func(fn):
@@ -444,7 +526,8 @@ def parse():
             for g in m['pre']:
                 if g not in flags:
                     flags.append(g)
-    LAST = {'api': api, 'entries': entries, 'classes': classes, 'json_methods': base['json_methods'], 'flags': flags}
+    LAST = {'api': api, 'entries': entries, 'classes': classes, 'json_methods': base['json_methods'], 'flags': flags,
+            'grant': base['grant']}
     return LAST
 
 
@@ -496,6 +579,10 @@ def gen_text(t):
         'Definition gen_json_methods : list meth := %s.' % coq.lst(t['json_methods']),
         'Definition gen_flags : list string := %s.' % coq.lst(t['flags'], s),
         '',
+        '(* web/base.py APIHandler.prepare, after the AUTH_ENABLED gate: the level granted to a request *)',
+        'Definition grant (present valid admin_empty : bool) (token_level : Z) : Z :=',
+        '  let NONE := ACCESS_LEVEL_NONE in %s.' % t['grant'][0],
+        '',
         'Definition gen_tables : tables := {|',
         '  t_routes := gen_routes; t_hmeths := gen_hmeths; t_noauth := gen_noauth; t_levels := gen_levels;',
         '  t_none := ACCESS_LEVEL_NONE; t_json_methods := gen_json_methods; t_wrapper := wrapper |}.',
@@ -509,5 +596,5 @@ def translate(ctx=None):
     coq.write_gen('C09Gen.v', gen_text(t))
     napi = sum(1 for e in t['entries'] if e['kind'] == 'KApi')
     nm = sum(len(c['methods']) for c in t['classes'].values())
-    return {'status': 'ok', 'detail': '%d routing entries (%d API), %d handler methods, flags %s'
-            % (len(t['entries']), napi, nm, t['flags'])}
+    return {'status': 'ok', 'detail': '%d routing entries (%d API), %d handler methods, flags %s; prepare grants %s'
+            % (len(t['entries']), napi, nm, t['flags'], t['grant'][1])}
